@@ -118,7 +118,7 @@ def run(ctx):
         st, msg, detail = min(members, key=lambda m: (len(m[0]["enc"]), codec.depth(m[0]["ty"]), m[0]["pv"], codec.case_id(m[0])))
         pvs = sorted({m[0]["pv"] for m in members})
         ctx.violation("%s; %d cases on pv %s; smallest: %s value=%s pv=%s %s"
-                      % (msg, len(members), pvs, codec.cql_name(st["ty"]), st["val"], st["pv"], detail),
+                      % (msg, len(members), pvs, codec.cql_name(st["ty"]), st.get("big") or st["val"], st["pv"], detail),
                       replay={"state": st, "half": sig.split(":")[0], "cases": len(members), "versions": pvs},
                       signature=sig)
     ctx.assumptions += [SCOPE, "map / set entries may be written by a client in any order; Cassandra sorts on its side",
